@@ -322,6 +322,8 @@ def run(rep: common.Report):
         b.error = repr(e)
     b.seconds = time.time() - t0
     rep.bounded.append(b)
+    from vc.static import state as _state
+    rep.add(_state.obligation(PID, ('cal', 'prop', 'parser', 'parser_tools', 'caselessdict', 'timezone/tzid'), Obligation, PROVED, UNDECIDED))
     rep.explanation = __doc__
 
 
